@@ -866,20 +866,31 @@ std::vector<double> Minimization::minimize(std::vector<std::vector<double>>& pp,
 		// Compute the fractional range from highest to lowest and return if satisfactory.
 		if(rtol < ftol)
 		{
-			std::swap(y[0], y[ilo]);
-			for(int i = 0; i < ndim; i++)
+			// Vertices of equal value do not mean that the simplex has collapsed (two points placed symmetrically about a minimum have equal values): look at the centre of the simplex as well, and go on if it is significantly lower.
+			double ylo	= y[ilo];
+			double ycen = amotry(current_simplex, y, psum, ihi, 1.0 / mpts, func);
+			nfunc++;
+			if(!(ycen < ylo && 2.0 * fabs(ylo - ycen) / (fabs(ylo) + fabs(ycen) + TINY) >= ftol))
 			{
-				std::swap(current_simplex[0][i], current_simplex[ilo][i]);
-				pmin[i] = current_simplex[0][i];
+				if(ycen < ylo)
+					ilo = ihi;	 // The centre has replaced the highest point and is the best point now.
+				std::swap(y[0], y[ilo]);
+				for(int i = 0; i < ndim; i++)
+				{
+					std::swap(current_simplex[0][i], current_simplex[ilo][i]);
+					pmin[i] = current_simplex[0][i];
+				}
+				fmin = y[0];
+				return pmin;
 			}
-			fmin = y[0];
-			return pmin;
 		}
 		if(nfunc >= NMAX)
 		{
 			std::cerr << "Error in libphysica::Minimization::minimize(): NMAX exceeded." << std::endl;
 			std::exit(EXIT_FAILURE);
 		}
+		if(rtol < ftol)
+			continue;	// The centre has replaced the highest point: rank the points again.
 		nfunc += 2;
 
 		// Begin a new iteration. First extrapolate by a factor 􏰱1 through the face of the simplex across from the high point, i.e., reflect the simplex from the high point.
